@@ -39,7 +39,11 @@ def run(ctx):
   rule_accum(ctx)
   rule_weight(ctx)
   rule_extract(ctx)
-  ctx.expect("R-C08-EXTRACT", 2, "HiddenNumberProblem and Cr50U2fGuesses")
+  rule_lattice(ctx)
+  ctx.expect("R-C08-LATTICE", 6, "GetLattice x 4 kinds of bias, precomputed constants, U2F sub-problem")
+  rule_u2f_pairs(ctx)
+  rule_forcurve(ctx)
+  ctx.expect("R-C08-EXTRACT", 4, "HiddenNumberProblem, ...WithPrecomputation, Cr50U2fGuesses, Cr50U2fSubProblem")
   ctx.expect("R-C08-WEIGHT", 2, "two bias families with constant ladders")
   ctx.expect("R-C08-ACCUM", 2, "BiasedBaseCheck and CheckCr50U2f")
   # "signatures of other issuers in the same batch keep their own verdict": every signature gets an entry created for it alone (shared with C16)
@@ -58,7 +62,7 @@ def run(ctx):
   ctx.expect("R-C08-GROUP", 4, "two checks x (partition, issuer grouping)")
   ctx.expect("R-C08-WINDOW", 3, "sizes, aligned slices, accumulation")
   ctx.expect("R-C08-LCG-TABLE", 18, "18 table entries")
-  ctx.expect("R-C08-SUBSETS", 3, "three regimes")
+  ctx.expect("R-C08-SUBSETS", 5, "strategy flags, two users, regimes, ForCurve wiring")
   ctx.expect("R-C08-U2F", 3, "basis, gate, windows")
 
 
@@ -447,6 +451,44 @@ def rule_subsets(ctx):
       regimes.append((model, e.facts, trip, e.node.lineno))
   if len(ys) < 4:
     probs.append("fewer than four problem shapes are produced (sliding, single, exact, key inclusion)")
+  # every model of the curve (and of the requested generator) is tried: the loop over the models is never left early, a model is skipped only for
+  # another curve / another generator, and the only refusal is the empty strategy
+  sel = []
+  ct, lcg = P("param", f.params()[2]), P("param", f.params()[3])
+  for li in w.loop_info.values():
+    it0 = li["visits"][0]["iter"].as_atom() if li["visits"] and isinstance(li["visits"][0]["iter"], Poly) else None
+    if it0 is None or it0.kind != "ref" or "CONSTANT_FACTORY" not in repr(it0):
+      continue
+    for vis in li["visits"]:
+      mdl = sym.mk("idx", as_poly(vis["iter"]), as_poly(vis["k"]))
+      mc, ml = sym.mk("idx", mdl, P("lit", "'curve'")), sym.mk("idx", mdl, P("lit", "'lcg'"))
+
+      def is_lcg_set(x):
+        return isinstance(x, Seq) and len(x.items) == 2 and sorted(repr(i_) for i_ in x.items) == sorted([repr(ml), repr(Const(None))])
+      for kind, val, st_, since, v_ in li["body_paths"]:
+        if v_ is not vis:
+          continue
+        newf = st_.facts[len(vis["head"].facts):]
+        if kind not in ("fall", "continue"):
+          sel.append("the search over the models is left by %s: later models of the curve are never tried" % kind)
+          continue
+        same_curve = any(fc[0] == "cmp" and fc[1] == "Eq" and isinstance(fc[2], Poly) and isinstance(fc[3], Poly) and {fc[2], fc[3]} == {mc, ct} for fc in newf)
+        other_curve = any(fc[0] == "cmp" and fc[1] == "NotEq" and isinstance(fc[2], Poly) and isinstance(fc[3], Poly) and {fc[2], fc[3]} == {mc, ct} for fc in newf)
+        wanted = any(fc[0] == "cmp" and fc[1] == "In" and isinstance(fc[2], Poly) and fc[2] == lcg and is_lcg_set(fc[3]) for fc in newf)
+        unwanted = any(fc[0] == "cmp" and fc[1] == "NotIn" and isinstance(fc[2], Poly) and fc[2] == lcg and is_lcg_set(fc[3]) for fc in newf)
+        rest = [fc for fc in newf if fc[0] == "cmp" and not ("'curve'" in repr(fc) or "'lcg'" in repr(fc))]
+        acts = any(w.events[i_].kind == "yield" for i_ in st_.trace[since:]) or bool(rest)
+        if acts and not (same_curve and wanted):
+          sel.append("a model is used without checking that it is for this curve and for the requested generator (or any generator when none is requested)")
+        if not acts and not (other_curve or (same_curve and unwanted)):
+          sel.append("a model is skipped although it is for this curve and generator")
+    sel.append(None)
+  if not sel:
+    probs.append("no loop over lcg_constants.CONSTANT_FACTORY")
+  probs.extend(x for x in sel if x)
+  for e in w.events:
+    if e.kind == "raise" and not any(fc[0] == "falsy" and isinstance(fc[1], Poly) and fc[1] == flags for fc in e.state.facts):
+      probs.append("line %d refuses a search although strategy flags are set" % e.node.lineno)
   # coverage: with all strategy flags set, some problem is produced whenever len(a) >= min_signatures - 1 (models keep min_signatures <= window: R-C08-LCG-TABLE)
   if regimes and not probs:
     from pcstatic import gridval
@@ -747,43 +789,44 @@ def rule_extract(ctx):
   R = "R-C08-EXTRACT"
   repo = ctx.repo
   from .ecsym import mod_strip
-  # ---- HiddenNumberProblem
-  f = repo.func("hidden_number_problem", "HiddenNumberProblem")
-  w = sym.Walker(repo, f)
-  w.run()
-  n = P("param", "n")
-  probs = []
-  loops = [i_ for i_ in w.loop_info.values() if i_["visits"] and isinstance(i_["visits"][0]["iter"], Poly) and "lll:reduce" in repr(i_["visits"][0]["iter"])[:40]]
-  if len(loops) != 1:
-    probs.append("no loop over the reduced lattice")
-  else:
-    info = loops[0]
-    vis = info["visits"][0]
-    red = as_poly(vis["iter"])
-    ra = red.as_atom()
-    la = as_poly(ra.args[1]).as_atom() if ra is not None and len(ra.args) > 1 else None
-    if la is None or la.kind != "call" or not repr(la.args[0]).endswith(":GetLattice')") or [repr(as_poly(x)) for x in la.args[1:5]] != ["param('a')", "param('b')", "param('w')", "param('n')"]:
-      probs.append("the lattice reduced is not GetLattice(a, b, w, n, bias)")
-    v = sym.mk("idx", red, as_poly(vis["k"]))
-    v0, v1 = sym.mk("idx", v, Poly.const(0)), sym.mk("idx", v, Poly.const(1))
-    want = sym.mk("mod", v1 * sym.mk("invert", v0, n), n)
-    adds = [e for e in w.events if e.kind == "mutate" and e.data["method"] == "add" and e.data["args"]]
-    if not adds or not all(isinstance(e.data["args"][0], Poly) and e.data["args"][0] == want for e in adds):
-      probs.append("a guess is not v[1] * v[0]^-1 mod n")
-    for kind, val, s_, since, v_ in info["body_paths"]:
-      if kind not in ("fall", "continue"):
-        probs.append("the loop over the reduced rows is left by %s" % kind)
-        continue
-      newf = s_.facts[len(vis["head"].facts):]
-      nz = any(fc[0] == "cmp" and fc[1] == "NotEq" and isinstance(fc[2], Poly) and fc[2] == sym.mk("mod", v0, n) and as_poly(fc[3]).is_zero() for fc in newf)
-      added = any(w.events[i_].kind == "mutate" and w.events[i_].data["method"] == "add" for i_ in s_.trace[since:])
-      if nz != added:
-        probs.append("a row is used exactly when v[0] % n != 0 - this path %s" % ("skips a usable row" if nz else "inverts a row with v[0] == 0 (mod n)"))
-    rets = [t_ for t_ in w.terminals if t_[0] == "return"]
-    acc = [nm for nm, av in vis["after_env"].items() if isinstance(av, Poly) and adds and isinstance(vis["head"].env.get(nm), Poly) and as_poly(adds[0].data["recv"]) == vis["head"].env[nm]]
-    if not acc or not all(isinstance(t_[1], Poly) and vis["after_env"][acc[0]] in [t_[1]] + [as_poly(x) for a_ in t_[1].all_atoms() for x in a_.args if isinstance(x, Poly)] for t_ in rets):
-      probs.append("the collected guesses are not what is returned")
-  ctx.record(R, f.where, "guess = v[1] * v[0]^-1 mod n for every usable row", not probs, "; ".join(sorted(set(probs))) or "all rows with v[0] != 0 (mod n), all guesses returned")
+  # ---- HiddenNumberProblem / HiddenNumberProblemWithPrecomputation
+  for fname, npos, need_call in (("HiddenNumberProblem", 3, True), ("HiddenNumberProblemWithPrecomputation", 2, False)):
+    f = repo.func("hidden_number_problem", fname)
+    w = sym.Walker(repo, f)
+    w.run()
+    n = P("param", f.params()[npos])
+    probs = []
+    loops = [i_ for i_ in w.loop_info.values() if i_["visits"] and isinstance(i_["visits"][0]["iter"], Poly) and "lll:reduce" in repr(i_["visits"][0]["iter"])[:40]]
+    if len(loops) != 1:
+      probs.append("no loop over the reduced lattice")
+    else:
+      info = loops[0]
+      vis = info["visits"][0]
+      red = as_poly(vis["iter"])
+      ra = red.as_atom()
+      la = as_poly(ra.args[1]).as_atom() if ra is not None and len(ra.args) > 1 else None
+      if need_call and (la is None or la.kind != "call" or not repr(la.args[0]).endswith(":GetLattice')") or [repr(as_poly(x)) for x in la.args[1:5]] != ["param('a')", "param('b')", "param('w')", "param('n')"]):
+        probs.append("the lattice reduced is not GetLattice(a, b, w, n, bias)")
+      v = sym.mk("idx", red, as_poly(vis["k"]))
+      v0, v1 = sym.mk("idx", v, Poly.const(0)), sym.mk("idx", v, Poly.const(1))
+      want = sym.mk("mod", v1 * sym.mk("invert", v0, n), n)
+      adds = [e for e in w.events if e.kind == "mutate" and e.data["method"] == "add" and e.data["args"]]
+      if not adds or not all(isinstance(e.data["args"][0], Poly) and e.data["args"][0] == want for e in adds):
+        probs.append("a guess is not v[1] * v[0]^-1 mod n")
+      for kind, val, s_, since, v_ in info["body_paths"]:
+        if kind not in ("fall", "continue"):
+          probs.append("the loop over the reduced rows is left by %s" % kind)
+          continue
+        newf = s_.facts[len(vis["head"].facts):]
+        nz = any(fc[0] == "cmp" and fc[1] == "NotEq" and isinstance(fc[2], Poly) and fc[2] == sym.mk("mod", v0, n) and as_poly(fc[3]).is_zero() for fc in newf)
+        added = any(w.events[i_].kind == "mutate" and w.events[i_].data["method"] == "add" for i_ in s_.trace[since:])
+        if nz != added:
+          probs.append("a row is used exactly when v[0] % n != 0 - this path %s" % ("skips a usable row" if nz else "inverts a row with v[0] == 0 (mod n)"))
+      rets = [t_ for t_ in w.terminals if t_[0] == "return"]
+      acc = [nm for nm, av in vis["after_env"].items() if isinstance(av, Poly) and adds and isinstance(vis["head"].env.get(nm), Poly) and as_poly(adds[0].data["recv"]) == vis["head"].env[nm]]
+      if not acc or not all(isinstance(t_[1], Poly) and vis["after_env"][acc[0]] in [t_[1]] + [as_poly(x) for a_ in t_[1].all_atoms() for x in a_.args if isinstance(x, Poly)] for t_ in rets):
+        probs.append("the collected guesses are not what is returned")
+    ctx.record(R, f.where, "guess = v[1] * v[0]^-1 mod n for every usable row", not probs, "; ".join(sorted(set(probs))) or "all rows with v[0] != 0 (mod n), all guesses returned")
   # ---- Cr50U2fGuesses
   f = repo.func("cr50_u2f_weakness", "Cr50U2fGuesses")
   w = sym.Walker(repo, f)
@@ -807,4 +850,350 @@ def rule_extract(ctx):
       adds = [e for e in w.events if e.kind == "mutate" and e.data["method"] == "add" and e.data["args"]]
       if not adds or not all(isinstance(e.data["args"][0], Poly) and e.data["args"][0] == want for e in adds):
         probs.append("the key guess is not (s1 * k1 - z1) * r1^-1 mod n")
+      # the cross-check must compare with the key the second signature gives for the same pair: a wrong formula rejects every correct pair
+      k2 = sym.mk("idx", el, Poly.const(1))
+      x2 = sym.mk("mod", (s2 * k2 - z2) * sym.mk("invert", r2, n), n)
+      for e in w.events:
+        if e.kind == "raise":
+          neq = [fc for fc in e.state.facts if fc[0] == "cmp" and fc[1] == "NotEq" and isinstance(fc[2], Poly) and isinstance(fc[3], Poly) and {fc[2], fc[3]} == {want, x2}]
+          geo = [fc for fc in e.state.facts if fc[0] == "cmp" and "bitlen" in repr(fc[2]) and "Cr50U2fSubProblem" not in repr(fc)]
+          if not neq and not (geo and len(e.state.facts) == len(geo)):
+            probs.append("line %d raises although the keys from the two signatures, (s1 k1 - z1)/r1 and (s2 k2 - z2)/r2 mod n, are not known to differ" % e.node.lineno)
   ctx.record(R, f.where, "sub-problem coefficients and key from k1", not probs, "; ".join(sorted(set(probs))) or "a = r2 s1, b = -r1 s2, w = r2 z1 - r1 z2 (mod n); x = (s1 k1 - z1) / r1 mod n")
+
+
+def _unslice(p):
+  """idx(slice(x, lo, hi, None), i) -> idx(x, lo + i)"""
+  for _ in range(4):
+    ch = False
+    for a in list(p.all_atoms()):
+      if a.kind == "idx" and len(a.args) == 2:
+        b = as_poly(a.args[0]).as_atom()
+        if b is not None and b.kind == "slice" and len(b.args) == 4 and repr(b.args[3]) in ("lit('None')", "1"):
+          lo = Poly.const(0) if repr(b.args[1]) == "lit('None')" else as_poly(b.args[1])
+          p = sym.rebuild(p.deep_subst(a, sym.mk("idx", as_poly(b.args[0]), lo + as_poly(a.args[1]))))
+          ch = True
+    if not ch:
+      break
+  return p
+
+
+def rule_u2f_pairs(ctx):
+  """Cr50U2fSubProblem reads the candidate nonces off a reduced row: k1 = |sum_j basis[j] * row[j]|, k2 = |sum_j basis[j] * row[words + j]| (the first two
+  blocks of coordinates are the byte patterns c1, c2 of the lattice rows e_j, e_{words+j})."""
+  R = "R-C08-EXTRACT"
+  repo = ctx.repo
+  f = repo.func("cr50_u2f_weakness", "Cr50U2fSubProblem")
+  w = sym.Walker(repo, f)
+  w.run()
+  basis = P("param", f.params()[4])
+  words = sym.mk("len", basis)
+  probs = []
+  ys = [e for e in w.events if e.kind == "yield"]
+  if not ys:
+    probs.append("nothing is yielded")
+  for e in ys:
+    v = e.data["value"]
+    if not (isinstance(v, Seq) and len(v.items) == 2):
+      probs.append("the result is not a pair (k1, k2)")
+      continue
+    row = None
+    for li in w.loop_info.values():
+      for vis in li["visits"]:
+        if isinstance(vis["iter"], Poly) and "lll:reduce" in repr(vis["iter"])[:40]:
+          row = sym.mk("idx", as_poly(vis["iter"]), as_poly(vis["k"]))
+    if row is None:
+      probs.append("no loop over the reduced lattice")
+      continue
+    for which, off in ((0, Poly.const(0)), (1, words)):
+      a_ = as_poly(v.items[which]).as_atom()
+      s_ = as_poly(a_.args[0]).as_atom() if a_ is not None and a_.kind == "abs" else None
+      m_ = as_poly(s_.args[0]).as_atom() if s_ is not None and s_.kind == "sum" else None
+      if m_ is None or m_.kind != "map" or len(m_.args) != 3:
+        probs.append("k%d is not |sum(...)| over the basis" % (which + 1))
+        continue
+      bv = Poly.atom(m_.args[1])
+      elem = _unslice(as_poly(m_.args[0]))
+      want = sym.mk("idx", basis, bv) * sym.mk("idx", row, off + bv)
+      if not (elem - want).is_zero():
+        probs.append("k%d sums %r, not basis[j] * row[%sj]" % (which + 1, elem, "" if which == 0 else "words + "))
+      from pcstatic import wtable
+      cnt = wtable.length_of(m_.args[2])
+      src = as_poly(m_.args[2]).as_atom()
+      if src is not None and src.kind == "zip":
+        lens = []
+        for z in src.args:
+          za = as_poly(z).as_atom()
+          if za is not None and za.kind == "slice":
+            lo = Poly.const(0) if repr(za.args[1]) == "lit('None')" else as_poly(za.args[1])
+            lens.append(as_poly(za.args[2]) - lo if repr(za.args[2]) != "lit('None')" else None)
+          else:
+            lens.append(sym.mk("len", as_poly(z)))
+        cnt = lens[0] if lens and all(l_ is not None and (l_ - lens[0]).is_zero() for l_ in lens) else None
+      if cnt is None or not (cnt - words).is_zero():
+        probs.append("k%d does not sum over all %r basis words" % (which + 1, words))
+  ctx.record(R, f.where, "k1, k2 from a reduced row", not probs, "; ".join(sorted(set(probs))) or "k1 = |sum basis[j] row[j]|, k2 = |sum basis[j] row[words + j]|, j over all basis words")
+
+
+def rule_forcurve(ctx):
+  """HiddenNumberProblemForCurve wires the pieces: every problem produced by _HiddenNumberProblemSubsets(a, b, curve_type, lcg, flags) is solved with the
+  order of that curve (CURVE_FACTORY[curve_type].n), its own constants and weight, and all guesses of all problems are returned."""
+  R = "R-C08-SUBSETS"
+  repo = ctx.repo
+  HN = "hidden_number_problem"
+  f = repo.func(HN, "HiddenNumberProblemForCurve")
+  w = sym.Walker(repo, f)
+  w.run()
+  ps = [P("param", x) for x in f.params()[:5]]
+  probs = []
+  gen = [e for e in w.events if e.kind == "call" and e.data["name"] == "repo:%s:_HiddenNumberProblemSubsets" % HN]
+  sub = repo.func(HN, "_HiddenNumberProblemSubsets")
+  slv = repo.func(HN, "HiddenNumberProblemWithPrecomputation")
+
+  def bound(e, callee):
+    out = {}
+    for i_, a_ in enumerate(e.data["args"]):
+      if i_ < len(callee.params()):
+        out[callee.params()[i_]] = a_
+    out.update(e.data["kwargs"])
+    return out
+  if not gen:
+    probs.append("the sub-problems are never generated")
+  for e in gen:
+    b_ = bound(e, sub)
+    if [repr(b_.get(p_)) for p_ in sub.params()[:5]] != [repr(x) for x in ps]:
+      probs.append("the sub-problems are not generated from (a, b, curve_type, lcg, flags) as given")
+  order = sym.mk("attr", sym.mk("idx", P("ref", "ec_util.CURVE_FACTORY"), ps[2]), "n")
+  solves = [e for e in w.events if e.kind == "call" and e.data["name"] == "repo:%s:HiddenNumberProblemWithPrecomputation" % HN]
+  loops = [li for li in w.loop_info.values() if li["visits"] and isinstance(li["visits"][0]["iter"], Poly) and gen and li["visits"][0]["iter"] == as_poly(gen[0].data["value"])]
+  if len(loops) != 1 or not solves:
+    probs.append("no loop that solves each generated problem")
+  else:
+    li = loops[0]
+    vis = li["visits"][0]
+    item = sym.mk("idx", as_poly(vis["iter"]), as_poly(vis["k"]))
+    want = {slv.params()[0]: sym.mk("idx", item, Poly.const(0)), slv.params()[1]: sym.mk("idx", item, Poly.const(1)), slv.params()[2]: order,
+            slv.params()[3]: sym.mk("idx", item, Poly.const(2)), slv.params()[4]: sym.mk("idx", item, Poly.const(3))}
+    for e in solves:
+      b_ = bound(e, slv)
+      for p_, v_ in want.items():
+        if not (isinstance(b_.get(p_), Poly) and b_[p_] == v_):
+          probs.append("the solver's %s is %r, not %r" % (p_, b_.get(p_), v_))
+    for kind, val, st_, since, v_ in li["body_paths"]:
+      if v_ is not vis:
+        continue
+      if kind not in ("fall", "continue"):
+        probs.append("the loop over the problems is left by %s" % kind)
+        continue
+      solved = [w.events[i_] for i_ in st_.trace[since:] if w.events[i_].kind == "call" and w.events[i_].data["name"].endswith(":HiddenNumberProblemWithPrecomputation")]
+      if len(solved) != 1:
+        probs.append("a generated problem is not solved")
+        continue
+      res = as_poly(solved[0].data["value"])
+      grown = [n_ for n_, x_ in st_.env.items() if isinstance(x_, Poly) and isinstance(vis["head"].env.get(n_), Poly) and
+               (x_ - vis["head"].env[n_] - res).is_zero() or (isinstance(x_, Poly) and x_.as_atom() is not None and x_.as_atom().kind in ("concat", "mut") and res in [as_poly(z) for z in x_.as_atom().args if isinstance(z, (Poly, Atom))]
+                                                              and isinstance(vis["head"].env.get(n_), Poly) and vis["head"].env[n_] in [as_poly(z) for z in x_.as_atom().args if isinstance(z, (Poly, Atom))])]
+      rets = [t_ for t_ in w.terminals if t_[0] == "return"]
+      if not grown or not all(isinstance(t_[1], Poly) and any(vis["after_env"].get(n_) == t_[1] for n_ in grown) for t_ in rets):
+        probs.append("the guesses of a problem are not added to the list that is returned")
+  for e in w.events:
+    if e.kind == "raise":
+      ok_r = any(fc[0] == "cmp" and fc[1] == "NotEq" and "len(" in repr(fc[2]) and "len(" in repr(fc[3]) for fc in e.state.facts) or \
+          any(fc[0] == "cmp" and fc[1] in ("Is", "Eq") and isinstance(fc[3], Const) and fc[3].v is None and "CURVE_FACTORY" in repr(fc[2]) for fc in e.state.facts)
+      if not ok_r:
+        probs.append("line %d refuses an input that is neither mis-sized nor for an unknown curve" % e.node.lineno)
+  ctx.record(R, f.where, "every generated problem solved with the order of its curve; all guesses returned", not probs, "; ".join(sorted(set(probs))) or
+             "Subsets(a, b, curve_type, lcg, flags) -> WithPrecomputation(a0, b0, CURVE_FACTORY[curve_type].n, constants, w), guesses accumulated")
+
+
+# ------------------------------------------------------------------ LATTICE (the bases handed to LLL are the ones the documentation draws)
+def _hnp_spec(m, W, n, A, B, prefix, generalized):
+  """| n w + 1   0   a_0 w .. a_{m-1} w |      (1 instead of n w + 1 for GENERALIZED)
+     | 0         1   b_0 w .. b_{m-1} w |
+     | 0         0   n w e_i            |      (row 2 = w * (0, 0, 1, .., 1) for COMMON_PREFIX / GENERALIZED)"""
+  zero, one = Poly.const(0), Poly.const(1)
+  size = m + 2
+  g = [[zero] * size for _ in range(size)]
+  g[0] = [one if generalized else n * W + 1, zero] + [A(i) * W for i in range(m)]
+  g[1] = [zero, one] + [B(i) * W for i in range(m)]
+  for j in range(2, size):
+    g[j][j] = n * W
+  if prefix or generalized:
+    for j in range(2, size):
+      g[2][j] = W
+  return g
+
+
+def _div_atom(p, a):
+  """p / a when every term of p carries the atom a, else None."""
+  from fractions import Fraction
+  r = Poly()
+  for k, v in p.t.items():
+    if not any(b == a for b, e in k):
+      return None
+    nk = tuple((b, e - 1) if b == a else (b, e) for b, e in k)
+    nk = tuple((b, e) for b, e in nk if e != 0)
+    r = r + Poly({nk: Fraction(v)})
+  return r
+
+
+def rule_lattice(ctx):
+  """The attack can only find what its lattice contains.  The stores each constructor makes into its zero matrix are collected as a parametric table
+  (pcstatic.wtable) and the table, instantiated at sample lengths, must have exactly the rows of the documented basis: for GetLattice on every path
+  (explicit weight and each default weight; MSB, COMMON_PREFIX, COMMON_POSTFIX = prefix problem on a_i / w and b_i / w mod n, GENERALIZED), for the
+  precomputed-constants lattice, and for the U2F sub-problem."""
+  from pcstatic import wtable
+  R = "R-C08-LATTICE"
+  repo = ctx.repo
+  HN = "hidden_number_problem"
+  # ---- GetLattice
+  f = repo.func(HN, "GetLattice")
+  w = sym.Walker(repo, f)
+  w.run()
+  ps = f.params()
+  pa, pb, pw, pn, pbias = (P("param", x) for x in ps[:5])
+  cb = repo.cls(HN, "Bias")
+  bias_vals = {k: fold.try_fold(v) for k, v in cb.consts.items()}
+  fams = {"MSB": [], "COMMON_PREFIX": [], "COMMON_POSTFIX": [], "GENERALIZED": []}
+  if any(not isinstance(bias_vals.get(k), int) for k in fams):
+    ctx.incomplete(R, f.where, "GetLattice", "Bias enum values not found")
+  else:
+    byval = {bias_vals[k]: k for k in fams}
+    npaths = {k: 0 for k in fams}
+    explicit = {k: 0 for k in fams}
+    for kind, val, st in w.terminals:
+      if kind != "return" or not wtable.feasible(st):
+        continue
+      eqs = [fc for fc in st.facts if fc[0] == "cmp" and fc[1] == "Eq" and isinstance(fc[2], Poly) and fc[2] == pbias and isinstance(fc[3], (Poly, int)) and as_poly(fc[3]).as_int() is not None]
+      if len({as_poly(fc[3]).as_int() for fc in eqs}) != 1 or as_poly(eqs[0][3]).as_int() not in byval:
+        fams.setdefault("?", []).append("a lattice is returned on a path that does not fix the kind of bias")
+        continue
+      fam = byval[as_poly(eqs[0][3]).as_int()]
+      npaths[fam] += 1
+      w_none = any(fc[0] == "cmp" and fc[1] == "Is" and isinstance(fc[2], Poly) and fc[2] == pw for fc in st.facts)
+      if not w_none:
+        explicit[fam] += 1
+      try:
+        tab = wtable.extract(w, st, val)
+        for m in (3, 4):
+          env = [(sym.mk("len", pa).as_atom(), m), (sym.mk("len", pb).as_atom(), m)]
+          grid = wtable.instantiate(tab, env)
+          # the weight of this path: row 3 is n * W * e_3 in every family
+          cell = as_poly(grid[3][3]) if len(grid) > 3 else None
+          W = _div_atom(cell, pn.as_atom()) if cell is not None else None
+          if W is None or not (W * pn - cell).is_zero() or not ((W - pw).is_zero() if not w_none else (not W.is_zero() and pw.as_atom() not in W.all_atoms())):
+            fams[fam].append("the weight of the lattice is not %s: entry [3][3] = %r" % ("the parameter w" if not w_none else "a default constant", cell))
+            break
+          if fam == "COMMON_POSTFIX":
+            winv = sym.mk("invert", W, pn)
+            A = lambda i: sym.mk("mod", sym.mk("idx", pa, Poly.const(i)) * winv, pn)
+            B = lambda i: sym.mk("mod", sym.mk("idx", pb, Poly.const(i)) * winv, pn)
+          else:
+            A = lambda i: sym.mk("idx", pa, Poly.const(i))
+            B = lambda i: sym.mk("idx", pb, Poly.const(i))
+          spec = _hnp_spec(m, W, pn, A, B, fam in ("COMMON_PREFIX", "COMMON_POSTFIX"), fam == "GENERALIZED")
+          d = wtable.diff(grid, spec)
+          if d:
+            fams[fam].append("with %d samples%s: %s" % (m, "" if not w_none else " (default weight %r)" % (W,), d))
+            break
+      except Incomplete as ex:
+        fams[fam].append("UNDECIDED " + str(ex))
+      except IndexError as ex:
+        fams[fam].append(str(ex))
+    for fam in ("MSB", "COMMON_PREFIX", "COMMON_POSTFIX", "GENERALIZED"):
+      probs = sorted(set(fams[fam]))
+      if explicit[fam] == 0:
+        probs.append("UNDECIDED no path with an explicit weight returns a lattice for this bias")
+      if any(p_.startswith("UNDECIDED") for p_ in probs):
+        ctx.incomplete(R, f.where, "GetLattice %s" % fam, "; ".join(probs))
+      else:
+        ctx.record(R, f.where, "GetLattice %s" % fam, not probs, "; ".join(probs) or "%d paths (explicit and default weights) x sample lengths 3, 4: rows equal the documented basis" % npaths[fam])
+    if fams.get("?"):
+      ctx.violation(R, f.where, "GetLattice", "; ".join(sorted(set(fams["?"]))))
+  # ---- the lattice with precomputed constants
+  f = repo.func(HN, "HiddenNumberProblemWithPrecomputation")
+  w = sym.Walker(repo, f)
+  w.run()
+  ps = f.params()
+  pa, pb, pn, pc, pw = (P("param", x) for x in ps[:5])
+  calls = [e for e in w.events if e.kind == "call" and e.data["name"] == "repo:lll:reduce" and e.data["args"] and isinstance(e.data["args"][0], Poly)]
+  probs = []
+  if not calls:
+    ctx.incomplete(R, f.where, "precomputed constants", "no call of lll.reduce found")
+  else:
+    und = None
+    for e in calls:
+      try:
+        tab = wtable.extract(w, e.state, e.data["args"][0])
+        for m, q in ((2, 2), (3, 1), (1, 3)):
+          env = [(sym.mk("len", pa).as_atom(), m), (sym.mk("len", pb).as_atom(), m), (sym.mk("len", pc).as_atom(), q)]
+          grid = wtable.instantiate(tab, env)
+          size = m * q + 2
+          zero = Poly.const(0)
+          spec = [[zero] * size for _ in range(size)]
+          spec[0][0] = pn * pw + 1
+          spec[1][1] = Poly.const(1)
+          for i in range(m):
+            for j in range(q):
+              t_ = i * q + j + 2
+              c_ = sym.mk("idx", sym.mk("idx", pc, Poly.const(j)), Poly.const(0))
+              d_ = sym.mk("idx", sym.mk("idx", pc, Poly.const(j)), Poly.const(1))
+              spec[0][t_] = sym.mk("mod", sym.mk("idx", pa, Poly.const(i)) * c_ - d_, pn) * pw
+              spec[1][t_] = sym.mk("mod", sym.mk("idx", pb, Poly.const(i)) * c_, pn) * pw
+              spec[t_][t_] = pn * pw
+          d = wtable.diff(grid, spec)
+          if d:
+            probs.append("with %d samples and %d constant pairs: %s" % (m, q, d))
+            break
+      except Incomplete as ex:
+        und = str(ex)
+      except IndexError as ex:
+        probs.append(str(ex))
+    if und:
+      ctx.incomplete(R, f.where, "precomputed constants", und)
+    else:
+      ctx.record(R, f.where, "precomputed constants", not probs, "; ".join(sorted(set(probs))) or
+                 "(n w + 1, 0, ((a_i c_j - d_j) mod n) w ..), (0, 1, (b_i c_j mod n) w ..), n w e_t at 3 sample shapes")
+  # ---- the U2F sub-problem
+  f = repo.func("cr50_u2f_weakness", "Cr50U2fSubProblem")
+  w = sym.Walker(repo, f)
+  w.run()
+  ps = f.params()
+  qa, qb, qw, qp, qbasis = (P("param", x) for x in ps[:5])
+  calls = [e for e in w.events if e.kind == "call" and e.data["name"] == "repo:lll:reduce" and e.data["args"] and isinstance(e.data["args"][0], Poly)]
+  probs = []
+  if not calls:
+    ctx.incomplete(R, f.where, "U2F sub-problem", "no call of lll.reduce found")
+  else:
+    und = None
+    for e in calls:
+      try:
+        tab = wtable.extract(w, e.state, e.data["args"][0])
+        for words in (2, 3):
+          env = [(sym.mk("len", qbasis).as_atom(), words)]
+          grid = wtable.instantiate(tab, env)
+          size = 2 * words + 2
+          zero = Poly.const(0)
+          spec = [[zero] * size for _ in range(size)]
+          for j in range(words):
+            v_ = sym.mk("idx", qbasis, Poly.const(j))
+            spec[j][j] = Poly.const(1)
+            spec[j][size - 1] = sym.mk("mod", v_ * qa, qp)
+            spec[j + words][j + words] = Poly.const(1)
+            spec[j + words][size - 1] = sym.mk("mod", v_ * qb, qp)
+          spec[size - 2][size - 2] = Poly.const(256)
+          spec[size - 2][size - 1] = qw
+          spec[size - 1][size - 1] = qp
+          d = wtable.diff(grid, spec)
+          if d:
+            probs.append("with %d basis words: %s" % (words, d))
+            break
+      except Incomplete as ex:
+        und = str(ex)
+      except IndexError as ex:
+        probs.append(str(ex))
+    if und:
+      ctx.incomplete(R, f.where, "U2F sub-problem", und)
+    else:
+      ctx.record(R, f.where, "U2F sub-problem", not probs, "; ".join(sorted(set(probs))) or
+                 "e_j + (v_j a mod p) e_last, e_{j+words} + (v_j b mod p) e_last, 256 e_{-2} + w e_last, p e_last at 2 and 3 basis words")
